@@ -1867,6 +1867,10 @@ def suite_failures(exe, tier, seed):
             write("incmain.circom", 'pragma circom 2.0.0;\ninclude "inclib.circom";\ntemplate Uses() { signal input x; signal output y; component s = Sub(); s.a <== x; s.b <== x; y <== s.c; }\ncomponent main = Uses();\n')
             expect_failure("named-and-included", case + "-included-first", ["inclib.circom", "incmain.circom"], f"{case} in a named file that the other named file includes")
             expect_failure("named-and-included", case + "-includer-first", ["incmain.circom", "inclib.circom"], f"{case} in a named file that the other named file includes")
+        # ---- duplicate definitions (the earlier one is dropped)
+        for (case, extra) in (("template", "template Sub() { signal input a; signal output c; c <== a; }\n"), ("function", "function h(a) { return a; }\nfunction h(a) { return a + 1; }\n")):
+            f = write("dupdef.circom", FAIL_CLEAN + extra + FAIL_MAIN)
+            expect_failure("duplicate-definition", case, [f], f"two {case}s with the same name")
         # ---- G: several main components
         m2 = write("main2.circom", "pragma circom 2.0.0;\ntemplate Other() { signal input i; signal output o; o <== i; }\ncomponent main = Other();\n")
         expect_failure("multiple-main", "two-files", [clean, m2], "two files with a main component each")
@@ -1874,8 +1878,8 @@ def suite_failures(exe, tier, seed):
     finally:
         shutil.rmtree(d, ignore_errors=True)
     return {"unit": "e2e-failures", "evaluations": evals, "distinct_nontrivial": nontrivial, "exhaustive": False,
-            "rule": "the real CLI on a clean two-template project into which one failure is injected: a named file that does not exist (alone, first, last, between; also with another or no extension) or that cannot be analysed and is named with another extension, an unsupported `pragma circom` version (4 versions, first and second file), an illegal character or a stray brace before a token of the file (every token thorough, every fifth quick) and an unterminated comment, a malformed tuple or anonymous component (4 forms), a repeated parameter name (template first / last, function, a template that four others instantiate — repeated runs), two main components (both file orders), a syntax error or parameter collision in a named file that another named file includes (both orders); each under --level warning and --level error: the exit status is non-zero, `No issues found.` is not printed, and an error-level report is displayed; the clean project itself exits 0",
-            "bound": "8 failure classes; syntax errors at " + ("every" if tier == "thorough" else "every fifth") + " token of a 17-line file; 2 levels each",
+            "rule": "the real CLI on a clean two-template project into which one failure is injected: a named file that does not exist (alone, first, last, between; also with another or no extension) or that cannot be analysed and is named with another extension, an unsupported `pragma circom` version (4 versions, first and second file), an illegal character or a stray brace before a token of the file (every token thorough, every fifth quick) and an unterminated comment, a malformed tuple or anonymous component (4 forms), a repeated parameter name (template first / last, function, a template that four others instantiate — repeated runs), two definitions with the same name, two main components (both file orders), a syntax error or parameter collision in a named file that another named file includes (both orders); each under --level warning and --level error: the exit status is non-zero, `No issues found.` is not printed, and an error-level report is displayed; the clean project itself exits 0",
+            "bound": "9 failure classes; syntax errors at " + ("every" if tier == "thorough" else "every fifth") + " token of a 17-line file; 2 levels each",
             "samples": samples, "violations": viol}
 
 
